@@ -139,6 +139,7 @@ N_PROBE_QUICK = [97, 127, 206, 4097, 8192]
 N_FULL_THOROUGH = [5, 31, 32, 33, 97, 127, 128, 129, 206]               # (97, 127, 206: full basis here, probe in quick)
 N_PROBE_THOROUGH = [1023, 1024, 1025, 4095, 4096, 4099, 5000, 16384]    # 4099 is prime, 5000 = 2^3*5^4
 N_FORMS_THOROUGH_EXTRA = [1023]      # a long length that additionally runs on every gv call form (thorough)
+N_FORMS_THOROUGH_SKIP = [97, 127, 206]   # full-basis lengths that run on the sps+R configurations only (412 basis inputs x 28 more grids buy nothing new)
 N_LONG = 1000                        # lengths above run on fewer sampling rates and a thinned law list (cost: ~2 ms per library call)
 FS_LONG_QUICK = ['16G', '160G']
 FS_LONG_THOROUGH = ['16G', '160G', '1280G']
@@ -161,7 +162,7 @@ def grids(tier):
     if tier == 'thorough':
         Ns = sorted(set(Ns + N_FULL_THOROUGH + N_PROBE_THOROUGH))
         fss += FS_BASE_THOROUGH
-    Nf = sorted(set(full_lengths(tier)) | set(N_FORMS_THOROUGH_EXTRA)) if tier == 'thorough' else N_FORMS_QUICK
+    Nf = sorted((set(full_lengths(tier)) - set(N_FORMS_THOROUGH_SKIP)) | set(N_FORMS_THOROUGH_EXTRA)) if tier == 'thorough' else N_FORMS_QUICK
     flong = FS_LONG_THOROUGH if tier == 'thorough' else FS_LONG_QUICK
     out = [(N, pol, f) for N in sorted(Ns) for pol in (1, 2) for f in (fss if N <= N_LONG else flong) + (FS_FORMS if N in Nf else [])]
     return out
